@@ -19,7 +19,10 @@ RULE = ("gain vectors of length 1..16 drawn from classes {log-uniform over 12 "
         "the returned level, agreement with an independent longdouble "
         "closed-form water-filling, permutation equivariance and 50 feasible "
         "perturbations.  Signature = (n, gain class, active channels, "
-        "Es==1, decade of Pt); non-trivial = n >= 2 or Es != 1.")
+        "Es==1, decade of Pt); non-trivial = n >= 2 or Es != 1.  "
+        "Gain classes include ties, integer dtypes and physical-unit magnitudes "
+        "(1e-14..1e-9 and 1e9..1e14); a fifth of the budgets sit exactly on a "
+        "switch-off boundary; the permuted call is under the contract too. ")
 ASSUMPTIONS = ["tolerances are backward-error bounds 64 n eps (level + inverse "
                "gain of the active channels)"]
 EPS = np.finfo(float).eps
